@@ -1,11 +1,13 @@
 exec(open('patch_l3.py').read().replace("open('bd3.rs','w').write(s)","pass"))
-s=s.replace("\nfn main() {}", "\n"+open('l2rec.rs').read()+"\nfn main() {}")
+s=s.replace("\nfn main() {}", "\n"+open('l2rec.rs').read()+open('l2view.rs').read()+"\nfn main() {}")
 rep("""    pub fn record_alloc_inner(&mut self, page_number: u32, order: u8) -> (r: bool)
         requires old(self).shape(),
         ensures final(self).shape(), final(self).same_shape(*old(self)),""","""    pub fn record_alloc_inner(&mut self, page_number: u32, order: u8) -> (r: bool)
         requires old(self).wf2(),
         ensures final(self).wf2(), final(self).same_shape(*old(self)),
             r ==> old(self).st().cov(order as int, page_number as int) && !final(self).st().cov(order as int, page_number as int),
+            r ==> forall|k: int, y: int| 0 <= k <= order ==> #[trigger] final(self).st().cov(k, y)
+                    == (old(self).st().cov(k, y) && !is_anc(k, y, order as int, page_number as int)),
             !r ==> !old(self).st().cov(order as int, page_number as int),""")
 rep("""        if order > self.max_order {
             return false;
